@@ -27,6 +27,15 @@ CLAIMED["C08"] = dict(
          "and SQL are outside",
     design="§3 C08")
 
+CLAIMED["C09"] = dict(
+    text="Narrow claim: the identifier channel through which a storage can influence a sampler. The real BaseGASampler generation/parent-cache "
+         "code and optuna.copy_study are executed with a symbolic trial-id offset, symbolic parent subset and z3-real values; results in trial "
+         "numbers must not depend on the offset, cached calls must equal first calls, copies must equal originals field for field. Whole seeded "
+         "runs (8 samplers x id offset / journal file / rerun / split) are compared concretely as a supplementary, explicitly non-solver obligation.",
+    note="whole-run reproducibility for all objective programs is outside the solver-decided claim (given the seed nothing is left to quantify); "
+         "RDB/gRPC transports are modelled only by the id offset",
+    design="§3 C09")
+
 NOT_APPLICABLE = {
     "C03": "thread/process pre-emption at source-line granularity inside the storage layer cannot be made a symbolic variable over the "
            "real Python code by a solver-based executor; its atomic-step obligations are discharged under C01/C04/C06/C07",
